@@ -9,8 +9,8 @@ text can be re-rendered from it (EPV/Spec/GlobalsXmlDeclSpec.lean).
 
 Because `parse-xml` hands **bytes** to the parser, the declared encoding is honoured: a name neither
 expat nor Python's codec registry knows raises `LookupError` in the byte parser, a multi-byte codec
-`ValueError`; since fix-c19-5 (F19e) both are reported as FODC0006 — `encClass`, a closed table of the
-names the harness generates.
+`ValueError`; since fix-c19-5 (F19e) both are reported as FODC0006 — `encClass`: a closed table, and an oracle
+argument for names outside it.
 
 Core Lean only.
 -/
@@ -143,14 +143,21 @@ inductive EncClass where
   | unknown     -- not a codec: `LookupError`
   deriving DecidableEq, Repr
 
-/-- closed table (the names the harness generates, compared case-insensitively); every other name
-counts as unknown — the harness checks each generated name against `codecs.lookup` -/
-def encClass (v : List Char) : EncClass :=
+/-- closed, kernel-checked table of encoding names (compared case-insensitively); `none` = the name
+is not in the table -/
+def tableClass (v : List Char) : Option EncClass :=
   let l := String.ofList (v.map Char.toLower)
-  if ["utf-8", "utf8", "us-ascii", "ascii", "iso-8859-1", "latin-1", "latin1", "cp1252"].contains l then .ok
-  else if l == "utf-16" then .wrong
-  else if ["utf-32", "big5", "shift_jis", "euc-jp"].contains l then .multibyte
-  else .unknown
+  if ["utf-8", "utf8", "us-ascii", "ascii", "iso-8859-1", "latin-1", "latin1", "cp1252"].contains l then some .ok
+  else if l == "utf-16" then some .wrong
+  else if ["utf-32", "big5", "shift_jis", "euc-jp"].contains l then some .multibyte
+  else if ["x-foo", "standalone-yes", "ebcdic-c19", "a", "u.t_f", "version"].contains l then some .unknown
+  else none
+
+/-- the class of a declared encoding name: the table, and for a name outside it the **oracle** `o` —
+what the running interpreter's byte parser does with that name (Python's codec registry and its
+alias normalisation are not modelled; the harness computes `o` from the live interpreter and passes
+it on the protocol line, e.g. `Utf-` is an alias of UTF-8 there) -/
+def encClass (o : EncClass) (v : List Char) : EncClass := (tableClass v).getD o
 
 /-- the prolog scan with the XML declaration parsed exactly: the scan result and the declaration's
 tree.  Without a declaration head it is `scanProlog`, after a look at the head of a leading PI. -/
@@ -181,11 +188,11 @@ def parseTextWith (p : Prolog) : Option Doc :=
 
 /-- the text starts with a well-formed XML declaration whose encoding the byte parser cannot use
 (was the trigger of F19e; since fix-c19-5 such a text is an ordinary FODC0006) -/
-def rawEncoding (s : List Char) : Bool :=
+def rawEncoding (o : EncClass) (s : List Char) : Bool :=
   match (scanPrologX s).2 with
   | some t =>
     match t.encoding with
-    | some n => encClass n == .unknown || encClass n == .multibyte
+    | some n => encClass o n == .unknown || encClass o n == .multibyte
     | none => false
   | none => false
 
@@ -193,11 +200,11 @@ def rawEncoding (s : List Char) : Bool :=
 resolved when the declaration is read, i.e. before any DOCTYPE is seen; an encoding that is wrong
 for the UTF-8 bytes (`ParseError`), unknown (`LookupError`) or multi-byte (`ValueError`) makes the
 call fail with FODC0006 (`except (etree.ParseError, LookupError, ValueError)`, fix-c19-5) -/
-def parseXmlTextX (defuseFlag : Bool) (s : String) : Except XErr String :=
+def parseXmlTextX (o : EncClass) (defuseFlag : Bool) (s : String) : Except XErr String :=
   let cs := s.toList
   let pt := scanPrologX cs
   let cls := match pt.2 with
-    | some t => (match t.encoding with | some n => encClass n | none => .ok)
+    | some t => (match t.encoding with | some n => encClass o n | none => .ok)
     | none => EncClass.ok
   match cls with
   | .unknown => .error .FODC0006
